@@ -232,7 +232,10 @@ class CSVOutputStream(OutputStream):
 
     def open_writer(self, table_name, table):
         file = open(self.target_path / f"{table_name}.csv", "w", newline="")
-        writer = csv.DictWriter(file, list(table.fields.keys()) + ["id"])
+        fieldnames = list(table.fields.keys()) + ["id"]
+        if getattr(table, "has_update_keys", False):
+            fieldnames.append("_sf_update_key")
+        writer = csv.DictWriter(file, fieldnames)
         writer.writeheader()
         return CSVContext(dictwriter=writer, file=file)
 
